@@ -875,7 +875,7 @@ def corr_asm(ctx, P):
                 nest = (rng.choice(["setWrite", "setWrite", "setClose", "setHandshake"]), rng.choice([0, 1, 1, 5, "stop", "raise"]))
             m.reenter = nest
             pend = []
-            if op == "inRead" and nest is None and rng.random() < 0.4:
+            if op in ("inRead", "inWrite") and nest is None and rng.random() < 0.4:
                 pend = [rng.choice([5, 5, 6, 0, 1, "stop", "raise"]) for _ in range(rng.randrange(1, 4))]
             m.tlsConnection.pending = list(pend)
             prev_active = any((m.handshaker, m.closer, m.reader, m.writer))
@@ -905,7 +905,7 @@ def corr_asm(ctx, P):
             if m.nested is None and pend:
                 impl = "%s %s wr=%s ww=%s" % (st(m), res, optb(m.wantsReadEvent()), optb(m.wantsWriteEvent()))
                 ps = ",".join(x if isinstance(x, str) else "y%d" % x for x in pend)
-                P.add("asmdrain %s %s" % (gs, ps), "asyncstatemachine:read-ahead-drain", dict(case, at=[op, gs], pending=ps), impl)
+                P.add("asmdrain %s %s %s" % (op, gs, ps), "asyncstatemachine:read-ahead-drain", dict(case, at=[op, gs], pending=ps), impl)
                 m.tlsConnection.pending = []
             elif m.nested is None:
                 impl = "%s %s wr=%s ww=%s%s" % (st(m), res, optb(m.wantsReadEvent()), optb(m.wantsWriteEvent()),
@@ -1626,6 +1626,7 @@ def play_asm(scn, spec, pin, order_seed=None):
             self.closed_done = False
             self.exc = None
             self.stage = {}
+            self.snap_at = None
 
         def outConnectEvent(self):
             self.connected = True
@@ -1637,12 +1638,18 @@ def play_asm(scn, spec, pin, order_seed=None):
             if not b:
                 self.peer_closed = True
             self.got += b
+            # the last expected byte has arrived: observe NOW (the read-ahead drain may go on and
+            # process the peer's close_notify before this event returns)
+            if self.snap_at is not None and len(self.got) >= self.snap_at and "obs" not in self.stage and b:
+                self.stage["obs"] = observe_end(self.tlsConnection)
 
     for round_no in range(2 if scn.get("resume") else 1):
         L = lab.Lab()
         apply_schedule(L, spec)
         c, sv = start_handshake(L, scn, session=session, cache=cache)
         cm, sm = M(L.client.conn, "client"), M(L.server.conn, "server")
+        cm.snap_at = len(d2)
+        sm.snap_at = (len(d1) + len(d3)) if scn.get("ku") else None
         del _HB[:]
         if scn.get("close_wait"):
             L.client.conn.closeSocket = False
